@@ -129,11 +129,14 @@ class C06(core.Check):
 
     def space(self):
         if self.tier == "thorough":
-            return rt.OptSpace(al.ir_space(self.tier), self.option_list())
+            full = self.option_list()
+            qn = [dict(o, ftnone=True) for o in full if o["kind"] == "function" and o["indent"] == 2]
+            return core.Concat(rt.OptSpace(al.ir_space(self.tier), full), rt.OptSpace(al.S_B((2,)), qn))
         full = self.option_list()
         qa = [o for o in full if o["kind"] != "function" or (o["ft"], o["inline"], o["kwonly"]) in (
             ("static", True, True), ("static", False, False), ("self", True, False), ("cls", False, True))]
-        return core.Concat(rt.OptSpace(al.S_A(), qa), rt.OptSpace(al.S_B((2,)), full))
+        qn = [dict(o, ftnone=True) for o in full if o["kind"] == "function" and o["inline"] != o["kwonly"]]
+        return core.Concat(rt.OptSpace(al.S_A(), qa), rt.OptSpace(al.S_B((2,)), full), rt.OptSpace(al.S_D(), full + qn))
 
     # -------------------------------------------------------------------------------- run
     def run_case(self, case):
@@ -152,7 +155,10 @@ class C06(core.Check):
             elif kind == "argparse":
                 node = emit.argparse_function(ir, emit_default_doc=opts["edd"], word_wrap=opts["ww"])
             else:
-                node = emit.function(ir, function_name="f", function_type=opts["ft"], word_wrap=opts["ww"],
+                fn, fty = "f", opts["ft"]
+                if opts.get("ftnone"):  # name and type are taken from the IR (the documented Optional arguments)
+                    ir["name"], ir["type"], fn, fty = "f", opts["ft"], None, None
+                node = emit.function(ir, function_name=fn, function_type=fty, word_wrap=opts["ww"],
                                      emit_default_doc=opts["edd"], indent_level=opts["indent"],
                                      inline_types=opts["inline"], emit_as_kwonlyargs=opts["kwonly"])
             text = to_code(node)
